@@ -8,6 +8,8 @@ for ID in $IDS; do
   (
     for d in seeded/$ID-*; do
       s=$(basename $d)
+      k=${s##*-}
+      [ "$k" -lt "${SEED_MIN:-1}" ] && continue
       tools/try_seed.sh $ID /verif/$d/patch.diff > /tmp/seedmat/$s.log 2>&1
     done
   ) &
@@ -25,6 +27,8 @@ if os.path.exists(out):
 for ID in ids:
     for d in sorted(glob.glob(f'/verif/seeded/{ID}-*')):
         s = os.path.basename(d)
+        if int(s.split('-')[1]) < int(os.environ.get('SEED_MIN', '1')):
+            continue
         log = open(f'/tmp/seedmat/{s}.log').read() if os.path.exists(f'/tmp/seedmat/{s}.log') else ''
         viol = [l for l in log.split('\n') if l.startswith('VIOLATION')]
         if 'patch does not apply' in log:
